@@ -387,9 +387,17 @@ def gsvd_oracle(ctx, case, out):
     # predict on rows of the fitted matrix
     smin, smax = (float(s.min()), float(s.max())) if k else (1.0, 1.0)
     ratio = smin / smax if smax > 0 else 0.0
+    # rows whose exact embedding is null come out as round-off noise; normalisation turns the noise into an arbitrary
+    # unit vector in fit and in predict alike: not comparable (dropped and counted)
+    rawn = np.sqrt((np.asarray(er if not case['normalized'] else raw_row(kind, dr, u, s, fs)) ** 2).sum(axis=1))
+    noise = rawn <= 1e-9 * max(float(rawn.max()) if len(rawn) else 0.0, 1e-300)
+    nonnull = np.abs(a).sum(axis=1) > 0
     for key, res in sorted(out['predict'].items()):
         i = int(key)
         psite = kind + '.predict'
+        if case['normalized'] and noise[i] and 'ok' in res:
+            ctx.margin_dropped += 1
+            continue
         if 'err' in res:
             bad('predict on a row of the fitted matrix raises', site=psite, check='predict', err=res['err'], row=i)
             status = 'violation'
@@ -406,11 +414,19 @@ def gsvd_oracle(ctx, case, out):
             status = 'violation'
     if out.get('predict_all') is not None and 'ok' in out['predict_all'] and not (kind != 'PCA' and fs > 0 and ratio < 1e-5):
         got = np.asarray(out['predict_all']['ok'], dtype=float).reshape(nr, k)
-        if not close(got, ir, 1e-7):
+        keep = nonnull & ~(noise if case['normalized'] else np.zeros(nr, dtype=bool))
+        if not close(got[keep], ir[keep], 1e-7):
             bad('predict on the fitted matrix does not reproduce embedding_row_', site=kind + '.predict', check='predict',
                 cause='mismatch', row='all')
             status = 'violation'
     return status
+
+
+def raw_row(kind, dr, u, s, fs):
+    """Row embedding before normalisation, from the returned triples."""
+    if kind == 'PCA':
+        return u
+    return dr[:, None] * u * np.power(s, 1 - fs)[None, :]
 
 
 def gsvd_model_args(case, out):
@@ -493,8 +509,9 @@ def run_gsvd_correspondence(ctx, items):
         got = np.asarray(out['predict'][str(row)]['ok'], dtype=float).reshape(-1)
         model = np.array([fl(x) for x in frv(p)])
         ctx.count('corr:%s.predict' % case['kind'], ('corrp', case, row), True)
-        if not np.isfinite(got).all():
-            continue     # division by a zero singular value: judged by the oracle, the model (Q: x / 0 = 0) does not apply
+        sv = np.asarray(out['singular_values'], dtype=float)
+        if not np.isfinite(got).all() or (case.get('factor_singular', 0.) > 0 and sv.min() < 1e-5 * sv.max()):
+            continue     # division by a (nearly) zero singular value: judged by the oracle; the model (Q: x / 0 = 0) does not apply
         if not close(model, got, 1e-8):
             ctx.violation(case['kind'] + '.predict', 'implementation differs from the Coq model of predict', case=case,
                           check='correspondence', kind=case['kind'], row=row, expected=model.tolist(), observed=got.tolist())
@@ -760,9 +777,10 @@ def run(ctx, scratch):
             if min(nr, nc) < 2:
                 continue
             est = rng.choice(['GSVD', 'GSVD', 'SVD', 'PCA'])
+            rows_ok = [i for i in range(nr) if any(e[0] == i and e[2] != 0 for e in spec['coo'])]
             case = dict(m=spec, kind=est, n_components=rng.randint(1, min(3, min(nr, nc) - 1)), normalized=rng.random() < 0.5,
                         solver=rng.choice([None, None, {'tol': 0.0}, {'tol': 1e-12, 'n_iter': 1000}]),
-                        predict_rows=sorted(rng.sample(range(nr), min(2, nr))), predict_all=rng.random() < 0.3)
+                        predict_rows=sorted(rng.sample(rows_ok, min(2, len(rows_ok)))), predict_all=rng.random() < 0.3)
             if est != 'PCA':
                 case['regularization'] = rng.choice([None, 0, 0.1, 1])
                 case['factor_singular'] = rng.choice([0., 0.5, 1.])
@@ -844,6 +862,9 @@ def run(ctx, scratch):
     ctx.assumptions = [
         'decomposition=\'rw\' with an effective regularisation of 0 and a node of degree 0: D^-1 does not exist, the documented '
         'matrix is undefined; such cases are run but not judged (counted as excluded_undefined_P)',
+        'predict is asked only about non-null rows of the fitted matrix (an all-zero adjacency vector is rejected by the input '
+        'validation, ValueError "The input matrix is empty"); rows whose exact embedding is null (round-off noise that '
+        'normalisation blows up to an arbitrary unit vector) are dropped from the predict comparison (margin_dropped)',
         'predict with factor_singular > 0 divides by sigma^factor_singular: cases whose smallest returned singular value is between '
         '1e-9 and 1e-5 of the largest are dropped as ill-conditioned (margin_dropped); exactly rank-deficient cases are judged',
         'ARPACK (eigsh, svds), np.linalg.qr, np.argsort, np.sqrt, np.power, Louvain are oracles: captured and fed to the model; '
